@@ -308,10 +308,22 @@ class ParseNeighbor(Section):
         Section.__init__(self, parser, scope, error)
         self._neighbors: list[bytes] = []
         self.neighbors: dict[str, Neighbor] = {}
+        self._staged_routes: list[tuple[Neighbor, Any]] = []
 
     def clear(self) -> None:
         self._neighbors = []
         self.neighbors = {}
+        self._staged_routes = []
+
+    def apply_staged_routes(self) -> None:
+        """Queue the routes of the parsed neighbors in their RIB: only once the whole configuration is accepted.
+
+        The RIB is shared by name with the neighbor of the running peer.  Adding the routes while a section was being
+        parsed meant that a reload refused for an error further down had already changed what the running peers announce.
+        """
+        staged, self._staged_routes = self._staged_routes, []
+        for neighbor, route in staged:
+            neighbor.rib.outgoing.add_to_rib_watchdog(route)
 
     def pre(self) -> bool:
         return self.parse(self.name, 'peer-address')
@@ -541,8 +553,8 @@ class ParseNeighbor(Section):
             # remove_self may well have side effects on route
             route = neighbor.resolve_self(route)
             if route.nlri.family().afi_safi() in families:
-                # This add the family to neighbor.families()
-                neighbor.rib.outgoing.add_to_rib_watchdog(route)
+                # added to the RIB by apply_staged_routes() when the configuration is committed
+                self._staged_routes.append((neighbor, route))
 
         for message in local.get('operational', {}).get('routes', []):
             if message.family().afi_safi() in families:
